@@ -158,7 +158,16 @@ func c05Ctx() map[string]interface{} {
 		"empty": []interface{}{}, "emap": map[string]interface{}{}, "a": "A1", "b": "<B&>", "c": "", "d": "d d",
 		"items": []interface{}{1, 2, 3}, "x": 1, "y": 2,
 		"mix": c05Mixed{name: "v"}, "pmix": &c05Mixed{name: "p"},
+		// maps whose key type is a named type (a plain string or int is convertible to it, not assignable)
+		"nmss": map[c05Str]string{"a": "x", "b": "y"}, "nmsa": map[c05Str]interface{}{"a": 1, "k": []int{1}},
+		"nmis": map[c05Int]string{1: "one", 2: "two"}, "nmst": c05NamedMaps{T: map[c05Str]string{"a": "t"}, N: map[c05Int]int{0: 7}},
 	}
+}
+
+type c05Int int
+type c05NamedMaps struct {
+	T map[c05Str]string
+	N map[c05Int]int
 }
 
 // values that contain themselves (thorough tier): map, slice, struct pointer, pointer
